@@ -68,7 +68,7 @@ def _random_blocks(rng, nx, n_stretch, n_match):
 
 
 def make_case(rng, double=False, nx=None, nt=None, span=None, n_baths=None, n_stretch=None, nta=0, n_match=0,
-              noise=None, var_kind=None, irregular=None, shuffle=True, j_config=None, layout=None):
+              noise=None, var_kind=None, irregular=None, shuffle=True, j_config=None, layout=None, atten=None):
     """returns a Case with .ds, .sections [(key, [(a, b), ...])], .trans_att, .matching [(hs, ts, rev)], .truth, .var_args"""
     c = Case()
     nx = nx or rng.randint(12, 40)
@@ -182,11 +182,12 @@ def make_case(rng, double=False, nx=None, nt=None, span=None, n_baths=None, n_st
             taf.append(f)
             tab.append(b)
         truth.update(df=df, db=db, alpha=alpha, taf=taf, tab=tab)
-    ast = ampl * np.exp(-1e-4 * min(1.0, 1000.0 / span) * (x - x[0]))[:, None] * (1 + 0.05 * r.random((1, nt)))
+    k_att = 1e-4 * min(1.0, 1000.0 / span) if atten is None else atten / span   # atten: total attenuation exponent over the fibre
+    ast = ampl * np.exp(-k_att * (x - x[0]))[:, None] * (1 + 0.05 * r.random((1, nt)))
     st = ast * np.exp(IF)
     data = {"st": st, "ast": ast}
     if double:
-        rast = ampl * np.exp(-1e-4 * min(1.0, 1000.0 / span) * (x[-1] - x))[:, None] * (1 + 0.05 * r.random((1, nt)))
+        rast = ampl * np.exp(-k_att * (x[-1] - x))[:, None] * (1 + 0.05 * r.random((1, nt)))
         data.update(rst=rast * np.exp(IB), rast=rast)
     # --- noise and variance arguments
     noise = rng.choice([0.0, 0.001, 0.005, 0.02, 0.05]) if noise is None else noise
